@@ -85,6 +85,20 @@ struct PredArgs
 	bool operator() (int, const std::unique_ptr<Tracked> & p) const { return deliverPredicate(p ? p->serial() : -1, p ? p->value : -1, p && p->intact(), true); }
 	bool operator() (const Tracked & t) const { return deliverPredicate(t.serial(), t.value, t.intact(), true); }
 };
+// a predicate that takes its arguments by value and keeps them: it owns copies, the queued event must stay intact
+struct PredByValue
+{
+	bool operator() (int, Tracked t) const { bool r = deliverPredicate(t.serial(), t.value, t.intact(), true); Tracked stolen(std::move(t)); (void)stolen; return r; }
+	bool operator() (std::string s, int v) const {
+		int serial = -1, value = -1;
+		bool ok = parseString(s, serial, value);
+		bool r = deliverPredicate(serial, value, ok && v == value, true);
+		std::string stolen(std::move(s)); (void)stolen;
+		return r;
+	}
+	bool operator() (int, const std::unique_ptr<Tracked> & p) const { return deliverPredicate(p ? p->serial() : -1, p ? p->value : -1, p && p->intact(), true); }
+	bool operator() (const Tracked & t) const { return deliverPredicate(t.serial(), t.value, t.intact(), true); }
+};
 struct PredNoArgs
 {
 	bool operator() () const { return deliverPredicate(-1, -1, true, false); }
@@ -104,8 +118,8 @@ struct IQ
 	virtual void enqueue(int slot, const MEvent & e, int how) = 0;
 	virtual bool process(int slot) = 0;
 	virtual bool processOne(int slot) = 0;
-	virtual bool processIf(int slot, bool withArgs) = 0;
-	virtual bool processUntil(int slot, bool withArgs) = 0;
+	virtual bool processIf(int slot, int form) = 0;    // form: 0 arguments by reference, 1 no arguments, 2 arguments by value
+	virtual bool processUntil(int slot, int form) = 0;
 	virtual bool peek(int slot, MEvent & out, bool & intact) = 0;
 	virtual bool take(int slot, MEvent & out, bool & intact, bool dispatchIt) = 0;
 	virtual void clear(int slot) = 0;
@@ -211,8 +225,8 @@ struct QImpl : IQ
 
 	bool process(int slot) override { return Q(slot).process(); }
 	bool processOne(int slot) override { return Q(slot).processOne(); }
-	bool processIf(int slot, bool withArgs) override { return withArgs ? Q(slot).processIf(PredArgs()) : Q(slot).processIf(PredNoArgs()); }
-	bool processUntil(int slot, bool withArgs) override { return withArgs ? Q(slot).processUntil(PredArgs()) : Q(slot).processUntil(PredNoArgs()); }
+	bool processIf(int slot, int form) override { return form == 1 ? Q(slot).processIf(PredNoArgs()) : form == 2 ? Q(slot).processIf(PredByValue()) : Q(slot).processIf(PredArgs()); }
+	bool processUntil(int slot, int form) override { return form == 1 ? Q(slot).processUntil(PredNoArgs()) : form == 2 ? Q(slot).processUntil(PredByValue()) : Q(slot).processUntil(PredArgs()); }
 
 	static void readQE(const QE & qe, MEvent & out, bool & intact, std::integral_constant<int, 0>) {
 		const Tracked & t = std::get<1>(qe.arguments);
@@ -610,6 +624,7 @@ struct Interp
 		}
 		f.stage = (type == F_IF || type == F_UNTIL) ? S_NEEDPRED : S_APPROVED;
 		f.predKind = op.a; f.predParam = op.b; f.predArgs = (op.c & 4) == 0;
+		predForm = (op.c & 4) ? 1 : ((op.c & 8) ? 2 : 0);
 		f.predScript = op.body.empty() ? nullptr : &op.body;
 		const bool guarded = ! f.batch.empty();
 		if(! guarded) {
@@ -654,12 +669,14 @@ struct Interp
 		if(frames.empty()) enqueuedInCall = false;
 		++rounds;
 	}
-	bool callImpl(int slot, FrameType type, bool withArgs) {
+	int predForm = 0;
+	bool callImpl(int slot, FrameType type, bool) {
+		const int form = predForm;
 		switch(type) {
 		case F_PROCESS: return lib->process(slot);
 		case F_ONE: return lib->processOne(slot);
-		case F_IF: return lib->processIf(slot, withArgs);
-		default: return lib->processUntil(slot, withArgs);
+		case F_IF: return lib->processIf(slot, form);
+		default: return lib->processUntil(slot, form);
 		}
 	}
 
@@ -1166,8 +1183,8 @@ Grammar makeGrammar(const std::string & prop)
 		{ Q_ENQ, "enqueue", 30, key, val, slot, -1, 0 },
 		{ Q_PROCESS, "process", 6, ArgSpec(0, 0), ArgSpec(0, 0), slot, -1, 0 },
 		{ Q_PROCESSONE, "processOne", 6, ArgSpec(0, 0), ArgSpec(0, 0), slot, -1, 0 },
-		{ Q_PROCESSIF, "processIf", 8, ArgSpec(0, 5), ArgSpec(0, 400), slot, 2, 3 },
-		{ Q_PROCESSUNTIL, "processUntil", 6, ArgSpec(0, 5), ArgSpec(0, 400), slot, 2, 3 },
+		{ Q_PROCESSIF, "processIf", 8, ArgSpec(0, 5), ArgSpec(0, 400), ArgSpec(0, 15), 2, 3 },
+		{ Q_PROCESSUNTIL, "processUntil", 6, ArgSpec(0, 5), ArgSpec(0, 400), ArgSpec(0, 15), 2, 3 },
 		{ Q_PEEK, "peekEvent", 4, ArgSpec(0, 0), ArgSpec(0, 0), slot, -1, 0 },
 		{ Q_TAKE, "takeEvent", 5, ArgSpec(0, 1), ArgSpec(0, 0), slot, -1, 0 },
 		{ Q_CLEAR, "clearEvents", 2, ArgSpec(0, 0), ArgSpec(0, 0), slot, -1, 0 },
